@@ -156,6 +156,24 @@ theorem C17_cells_lalr1 (vf : VFile.File) (enc : Encode.Enc) (m : Machine) (fuel
     rw [cells.demand s' _ hst y (hin y hy) col a hd]
     exact hk
 
+/-- **C17, shift and goto entries = the canonical goto function, every validated file**: (1) along every transition
+`s --X--> t'` of the generated automaton (by `C17_cells` these are exactly the shift destinations and the GOTO
+cells), the canonical goto `closure(moved(I, X))` of any item set `I` with the cores of `s` — in particular of every
+canonical LR(1) state merged into `s` — has the cores of `t'`; (2) wherever a canonical state merged into `s` has a
+symbol `X` right of a dot, the automaton has a transition from `s` on `X`. -/
+theorem C17_transitions_lalr1 (vf : VFile.File) (enc : Encode.Enc) (m : Machine) (fuel : Nat)
+    (he : Encode.encode vf = some enc) (hm : machineOf enc.ctx fuel = some (some m)) :
+    ∃ fm, firstSets enc.ctx fuel = some (some fm) ∧
+      (∀ tr ∈ m.transitions, ∀ I : Item → Prop, SameCoresPS I (m.states.getD tr.frm []) →
+        SameCoresPS (PClos enc.ctx fm (Moved enc.ctx I tr.sym)) (m.states.getD tr.to [])) ∧
+      (∀ s, s < m.states.length → ∀ I : Item → Prop, CanonState enc.ctx fm I → SameCoresPS I (m.states.getD s []) →
+        ∀ x X, I x → symRightOfDot enc.ctx x = some X → ∃ t', (⟨s, t', X⟩ : Transition) ∈ m.transitions) := by
+  have ok := Encode.encode_ok he
+  obtain ⟨fm, hfm, mok⟩ := machineOf_ok ok.terms hm
+  have hlen := (firstSets_closed hfm).2.1
+  exact ⟨fm, hfm, fun tr htr I hsc => transition_canon ok hlen mok htr hsc,
+    fun s hs I _ hsc x X hx hsym => canon_transition mok hs hsc hx hsym⟩
+
 end KikiVerif.C17
 
 #print axioms KikiVerif.C17.C17_items_exact
@@ -164,3 +182,4 @@ end KikiVerif.C17
 #print axioms KikiVerif.C17.C17_cells
 #print axioms KikiVerif.C17.C17_empty_table
 #print axioms KikiVerif.C17.C17_cells_lalr1
+#print axioms KikiVerif.C17.C17_transitions_lalr1
